@@ -318,29 +318,40 @@ def check_metadata(chk, prog, env, model):
     chk.rule('C08.metadata', 'key_ops / use string maps (RFC 7517), oct bits = 8 x length, oct always private', n, bad, floor=15)
 
 
-def check_bits_provenance(chk, prog, env, model):
-    prog.func(PARSE, 'pctx_to_pem')
-    seen = []
-
-    class R(Rule):
-        alloc_may_fail = False
-        lib_alloc_may_fail = False
-
-        def on_call(self, it, st, name, args, node):
-            if name == 'EVP_PKEY_get_size_t_param':
-                seen.append((args[0], args[1], args[2], node_loc(node)))
-    it = Interp(prog, PARSE, model=model, rule=R())
-    st = State()
-    item = ('obj', 'item')
-    st.zero.add(item)
-    it.run('pctx_to_pem', [Term(('pctx',), ptr=True), Term(('params',), ptr=True), Ref(item), Int(0)], st)
-    n = 1
+def check_bits_provenance(chk, prog, env, model, rulename='C08.bits-provenance'):
+    """at every successful exit of every asymmetric importer, item->bits holds what EVP_PKEY_get_size_t_param(pkey, "bits", ..)
+    wrote -- not a recomputed, rounded or overwritten number (the key-size floor of C09 compares exactly this field)"""
+    eff = effects.Effects(prog)
+    n = 0
     bad = 0
-    ok = any(isinstance(p, Str) and p.text() == 'bits' and isinstance(d, Ref) and d.loc == item and d.path == 'bits' for k, p, d, l in seen)
-    if not ok:
-        bad += 1
-        chk.add(Finding('C08.bits-provenance', PARSE, 'pctx_to_pem', 'bits', 'item->bits is not filled from the key\'s "bits" parameter: %r' % (seen,)))
-    chk.rule('C08.bits-provenance', 'asymmetric item->bits comes from EVP_PKEY_get_size_t_param(pkey, "bits", &item->bits)', n, bad, floor=1)
+    for f in ('process_rsa', 'process_ec', 'process_eddsa'):
+        for (unit, fn) in sorted(eff.ops_fields.get(f, ())):
+            rule, it, res, item = run_importer(prog, env, model, unit, fn)
+            succ = 0
+            for s, rv in res:
+                if not (isinstance(rv, Int) and rv.v == 0):
+                    continue
+                succ += 1
+                v = s.mem.get((item, 'bits'))
+                ok = False
+                if isinstance(v, Term) and v.k[0] == 'out' and v.k[1] == 'EVP_PKEY_get_size_t_param':
+                    # the call that produced it asked for the "bits" parameter
+                    for e in s.trace:
+                        if e[0] == 'api' and e[1] == 'EVP_PKEY_get_size_t_param' and len(e[3]) > 2 and isinstance(e[3][1], Str) \
+                                and e[3][1].text() == 'bits' and isinstance(e[3][2], Ref) and e[3][2].loc == item and e[3][2].path == 'bits':
+                            ok = True
+                if isinstance(v, Term) and v.k[0] == 'api' and v.k[1] in ('EVP_PKEY_get_bits', 'EVP_PKEY_bits'):
+                    ok = True       # the same number through OpenSSL's direct accessor
+                n += 1
+                if not ok:
+                    bad += 1
+                    chk.add(Finding(rulename, unit, fn, 'bits',
+                                    'a successful import leaves item->bits = %r, not the value EVP_PKEY_get_size_t_param(pkey, "bits", '
+                                    '&item->bits) reported for the imported key' % (v,)))
+            if not succ:
+                raise AnalysisBroken('%s: importer %s has no successful path' % (rulename, fn))
+    chk.rule(rulename, 'asymmetric importers: on every successful exit item->bits is exactly the number EVP_PKEY_get_size_t_param(pkey, "bits") '
+                       'reported', n, bad, floor=30)
 
 
 def run(chk, prog, tier):
